@@ -285,12 +285,13 @@ impl Family for B1 {
     }
     fn budget(&self, tier: Tier, p: &str) -> u64 {
         let q = match p {
-            "C12" => 160,
-            "C05" => 150,
-            "C07" => 80,
-            "C03" => 80,
-            "C04" => 80,
-            _ => 30,
+            // (the first twelve scenarios of a run are the damaged-file grid)
+            "C12" => 172,
+            "C05" => 162,
+            "C07" => 92,
+            "C03" => 92,
+            "C04" => 92,
+            _ => 42,
         };
         q * match tier {
             Tier::Quick => 1,
